@@ -92,6 +92,30 @@ theorem stepOf_filter_missing_op (d : List (Str × OptVal)) (h : optLookup d "fi
     rw [h]
   rw [this]; rfl
 
+/-- BRIDGE: on the words on which the model answers, the two branches of `transform.run` are `runFrom` / `runSplitFrom`
+    on the SAME steps, the same writer options and the same reader result - the functions all command-level theorems
+    (`C03Total`, `C17Run.split_concat`, `C18Local`, ...) are about.  In particular the `--split` branch uses the same
+    parameter dict as the plain branch. -/
+theorem runCmd_runSplitCmd_eq (names pw dw sw : List Str) (fmt : DestFmt) (enc : Option Str) (spec : Str) (src : Source)
+    (steps : List Step) (io : InOpts) (h1 : stepsOf names pw = some steps) (h2 : inOptsOf (optionsDict sw) = some io) :
+    runCmd names pw fmt dw enc sw src = some (runFrom steps fmt (outOptsOf (optionsDict dw)) enc (readSrc io src)) ∧
+    runSplitCmd names pw fmt dw enc spec sw src =
+      some (runSplitFrom steps fmt (outOptsOf (optionsDict dw)) enc spec (readSrc io src)) := by
+  constructor
+  · simp only [runCmd, h1, h2, runWords2, runWords, readSrcWords, Option.map_some]
+  · simp only [runSplitCmd, h1, h2, runSplitSrc]
+
+/-- the two branches answer on the same words -/
+theorem runCmd_isSome_iff (names pw dw sw : List Str) (fmt : DestFmt) (enc : Option Str) (spec : Str) (src : Source) :
+    (runCmd names pw fmt dw enc sw src).isSome = (runSplitCmd names pw fmt dw enc spec sw src).isSome := by
+  simp only [runCmd, runSplitCmd, runWords2, runWords, readSrcWords]
+  cases stepsOf names pw with
+  | none => rfl
+  | some steps =>
+    cases inOptsOf (optionsDict sw) with
+    | none => rfl
+    | some io => rfl
+
 /-- closed instances: the order of the names is the order of the steps; one dict for all; an unknown name, a terminal-file
     transformation and an unusable value are outside the model -/
 example : (stepsOf ["negra_mark_heads".toList, "binarize".toList] ["quiet".toList, "bare_bin_labels:0".toList]).map List.length = some 2 := by
